@@ -321,6 +321,23 @@ theorem read_in_file (bo : ByteOrder) (ibd : List UInt8) (off len : Nat) (dt : D
     simp only [List.length_take, List.length_drop]
     omega
 
+/-- Spectra that share an external offset (a stored-once axis of which each pixel records a leading
+part): two reads at the same offset agree element by element as far as both reach, and the number of
+elements of each is decided by ITS OWN encoded length - the offset alone does not identify an array. -/
+theorem read_shared_offset (bo : ByteOrder) (ibd : List UInt8) (off len₁ len₂ : Nat) (dt : DType)
+    (a₁ a₂ : List Nat) (h₁ : getBinaryData bo ibd off len₁ dt = some a₁)
+    (h₂ : getBinaryData bo ibd off len₂ dt = some a₂) :
+    a₁.length = min len₁ (ibd.length - off) / dt.width ∧
+    a₂.length = min len₂ (ibd.length - off) / dt.width ∧
+    ∀ i (h1 : i < a₁.length) (h2 : i < a₂.length), a₁[i] = a₂[i] := by
+  obtain ⟨l1, p1⟩ := read_pointwise bo ibd off len₁ dt a₁ h₁
+  obtain ⟨l2, p2⟩ := read_pointwise bo ibd off len₂ dt a₂ h₂
+  exact ⟨l1, l2, fun i h1 h2 => by rw [p1 i h1, p2 i h2]⟩
+
+example : getBinaryData .little [0, 0, 0x80, 0x3f, 0, 0, 0, 0x40, 7, 7, 7, 7] 0 4 .f32 = some [0x3f800000] ∧
+    getBinaryData .little [0, 0, 0x80, 0x3f, 0, 0, 0, 0x40, 7, 7, 7, 7] 0 8 .f32 = some [0x3f800000, 0x40000000] := by
+  constructor <;> decide +kernel
+
 example : (4 : Nat) + 8 ≤ ([0, 0, 0, 0, 0, 0, 0x80, 0x3f, 0, 0, 0, 0x40, 0xff] : List UInt8).length ∧ 8 % DType.f32.width = 0 := by
   decide
 
